@@ -120,3 +120,39 @@ def containment(f0: bool, f1: bool, f2: bool, t0: int, t1: int, t2: int) -> bool
     a = sorted((str(t), e.name, e.path, e.method) for t, c in with_bad.items() for e in c.endpoints)
     b = sorted((str(t), e.name, e.path, e.method) for t, c in without.items() for e in c.endpoints)
     return a == b
+
+
+# ------------------------------------------------------------------------------------------------ responses of one operation
+_RESP_OK = oai.Response.model_validate({"description": "d", "content": {"application/json": {"schema": {"type": "integer"}}}})
+_RESP_BAD = oai.Reference.model_validate({"$ref": "#/components/responses/Missing"})
+_RKEYS = ("200", "404", "4XX", "default", "503", "299")
+_BASE_EP = Endpoint(path="/x", method="get", description=None, name="op", requires_security=False, tags=[])
+
+
+def responses_accounted(k0: int, k1: int, k2: int, bad: int) -> bool:
+    """
+    Every entry of an operation's `responses` map — whatever its key, wherever it stands — ends up either as a handled
+    response or in a diagnostic that names it (real Endpoint._add_responses and response_from_data).
+    pre: 0 <= k0 < 6 and 0 <= k1 < 6 and 0 <= k2 < 6 and 0 <= bad < 4
+    post: _
+    """
+    b0, b1, b2, k3, b3 = bad == 0, bad == 1, bad == 2, k0, bad == 0
+    data = {}
+    for k, bad in ((k0, b0), (k1, b1), (k2, b2), (k3, b3)):
+        data[_pick(_RKEYS, k)] = _RESP_BAD if bad else _RESP_OK
+    ep, _ = Endpoint._add_responses(endpoint=_BASE_EP, data=data, schemas=Schemas(), responses={}, config=CFG_FIRST)
+    handled = [int(r.status_code) for r in ep.responses]
+    details = [e.detail or "" for e in ep.errors]
+    if len(handled) + len(details) != len(data) or len(set(handled)) != len(handled):
+        return False
+    for key, resp in data.items():
+        numeric = key in ("200", "404", "503")
+        if numeric and resp is _RESP_OK:
+            if int(key) not in handled:
+                return False
+        else:
+            if numeric and int(key) in handled:
+                return False
+            if not any(key in d for d in details):
+                return False
+    return True
